@@ -10,7 +10,7 @@ from ..core import JobResult, job_seed
 LETTERS = "abcxyzABCXYZ"
 DIGITS = "0189"
 META = ".+()[]{}|^$-,'#~%_\\ "
-EXOTIC = "日€§"
+EXOTIC = "日€§\n\t"
 
 POS = {"=": "!=", "like": "notlike", "===": "!==", "=~": "!=~"}
 ALIASES = {"=": ["=", "==", "eq"], "!=": ["!=", "<>", "ne"], "like": ["like", "LIKE"],
@@ -137,8 +137,30 @@ def rx_compile(pat):
     with warnings.catch_warnings():
         # "Possible nested set / set difference ...": Python itself flags the class syntax that other dialects read differently
         warnings.simplefilter("error", FutureWarning)
+        # `$` in Rust's dialect is the end of the text; Python's also matches before a final line feed: use \Z for it
+        out, i, in_class = [], 0, False
+        while i < len(pat):
+            c = pat[i]
+            if c == "\\" and i + 1 < len(pat):
+                out.append(pat[i:i + 2])
+                i += 2
+                continue
+            if in_class:
+                in_class = c != "]" or out[-1] in ("[", "[^")
+            elif c == "[":
+                in_class = True
+                if pat[i + 1:i + 2] == "^":
+                    out.append("[^")
+                    i += 2
+                    continue
+            elif c == "$":
+                out.append("\\Z")
+                i += 1
+                continue
+            out.append(c)
+            i += 1
         try:
-            return re.compile(pat)
+            return re.compile("".join(out))
         except FutureWarning as e:
             raise re.error(str(e))
 
@@ -186,7 +208,7 @@ def monitor_rx(res, r, ctx):
         cls = ev["cls"]
         src = ev["source"]
         if cls in ("glob", "like"):
-            if src and not (src.startswith("^(?i)") and src.endswith("$")):
+            if src and not ((src.startswith("^(?i)") or src.startswith("^(?si)") or src.startswith("^(?is)")) and src.endswith("$")):
                 res.viol("hook rx: %s pattern %r compiled to unanchored / case-sensitive regex %r" % (cls, ev["pattern"], src), ctx)
         elif cls == "rx":
             if src and src != ev["pattern"]:
